@@ -62,6 +62,9 @@ def steps(ctx, prog):
         if b is None:
             continue
         paths = sym.paths_of(b, prog)
+        for bb, op in wrapped_compared(b)[:1]:
+            ctx.violation("TAB-STEP", "%s|%s|wrapped" % (prog.config, fn), "%s compares (%s) the result of an overflowing/wrapping step: at the "
+                          "type's extreme value that result has wrapped around, so the test is wrong exactly there" % (fn, op), b.file())
         by_var = {}
         for p in paths:
             by_var.setdefault(variant_of(p), []).append(p)
@@ -71,6 +74,10 @@ def steps(ctx, prog):
             ps = by_var.get(vi, [])
             if ty != "char":
                 ok = len(ps) == 1 and ps[0].kind == "return" and ps[0].value[0] == "agg" and "StepRet" in ps[0].value[1]
+                if not ok and ps and all(p.kind == "return" and p.value[0] == "agg" and "StepRet" in p.value[1] for p in ps):
+                    # the flags are computed with branches (e.g. `caught_up && start != end`): decide them as a table over start vs end
+                    int_arm_table(ctx, prog, b, fn, ty, ps, cur, key)
+                    continue
                 if not ok:
                     ctx.violation("TAB-STEP", key, "%s<%s>: expected one straight-line StepRet" % (fn, ty), b.file())
                     continue
@@ -87,6 +94,76 @@ def steps(ctx, prog):
                 ctx.instance("TAB-STEP", key, sample={"fn": fn, "type": ty, "next": show(nx)})
             else:
                 char_arm(ctx, prog, b, fn, ps, cur, key)
+
+
+def wrapped_compared(body):
+    """[(bb, op)]: comparisons whose operand is the *value* of an overflowing_/wrapping_ add or sub.  At the extreme value that
+    result has wrapped around, so a comparison on it does not mean what it means for every other value; the path enumerator
+    treats `x + 1` as the mathematical successor (its no-overflow regime) and would not notice."""
+    from ..typestate import operand_local
+    tup, val = set(), set()
+    for bb, t in body.calls():
+        c = t.get("callee")
+        if c and c["path"].rsplit("::", 1)[-1] in ("overflowing_add", "overflowing_sub", "overflowing_mul") and not t["dest"]["p"]:
+            tup.add(t["dest"]["l"])
+        if c and c["path"].rsplit("::", 1)[-1] in ("wrapping_add", "wrapping_sub", "wrapping_mul") and not t["dest"]["p"]:
+            val.add(t["dest"]["l"])
+    changed = True
+    while changed:
+        changed = False
+        for bb, i, st in body.assigns():
+            rv, pl = st["rv"], st["place"]
+            if pl["p"]:
+                continue
+            if rv["k"] == "use" and rv["op"]["k"] in ("copy", "move"):
+                src = rv["op"]["place"]
+                if src["l"] in tup and not src["p"] and pl["l"] not in tup:
+                    tup.add(pl["l"]); changed = True
+                if (src["l"] in val and not src["p"]) or (src["l"] in tup and len(src["p"]) == 1 and src["p"][0]["k"] == "field" and src["p"][0]["i"] == 0):
+                    if pl["l"] not in val:
+                        val.add(pl["l"]); changed = True
+    out = []
+    for bb, i, st in body.assigns():
+        rv = st["rv"]
+        if rv["k"] == "binop" and rv["op"] in ("Lt", "Le", "Gt", "Ge", "Eq", "Ne"):
+            for o in (rv["a"], rv["b"]):
+                l = operand_local(o)
+                if l is not None and l in val:
+                    out.append((bb, rv["op"]))
+    return out
+
+
+def int_arm_table(ctx, prog, b, fn, ty, ps, cur, key):
+    from ..table import lt, eq
+    op = "Add" if fn == "increment" else "Sub"
+
+    def outcome(fi_want, fe_want):
+        def f(path, case):
+            fi, fe, ov, nx = path.value[2:6]
+            gi, ge = case.truth(fi), case.truth(fe)
+            if gi is None or ge is None:
+                return "finished flags %s / %s are not decided by the order of start and end" % (show(fi), show(fe))
+            if (gi, ge) != (fi_want, fe_want):
+                return "finished_inclusive/finished_exclusive are %s/%s, expected %s/%s (start > end / start >= end)" % (gi, ge, fi_want, fe_want)
+            if not (nx[0] == "bin" and nx[1] == op and nx[2] == cur and is_one(nx[3])):
+                return "next is %s, expected %s %s 1" % (show(nx), show(cur), "+" if op == "Add" else "-")
+            if not (ov == ("ovf", op, cur, nx[3]) or (op == "Sub" and ty in UNSIGNED and ov == ("bin", "Lt", cur, nx[3]))):
+                return "overflowed is %s, expected the overflow flag of that same operation" % show(ov)
+            return None
+        return f
+    for p in ps:
+        p.conds = tuple(c for c in (table.strip_gargs(c) for c in p.conds) if variant_of_cond(c) is None)
+    rows = [Row([lt(P1, P2)], outcome(False, False), name="start < end"),
+            Row([eq(P1, P2)], outcome(False, True), name="start == end"),
+            Row([lt(P2, P1)], outcome(True, True), name="start > end")]
+    try:
+        mism, n, dec = table.compare(ps, rows, nonneg=False)
+    except table.Undecided as e:
+        ctx.violation("TAB-STEP", key, "%s<%s>: undecided: %s" % (fn, ty, e), b.file())
+        mism = []
+    for m in mism[:2]:
+        ctx.violation("TAB-STEP", key, "%s<%s>: %s" % (fn, ty, m), b.file())
+    ctx.instance("TAB-STEP", key, sample={"fn": fn, "type": ty, "form": "branching flags"})
 
 
 FOR_RANGE_SRC = '''
